@@ -106,6 +106,9 @@ type Setup struct {
 	// blobs: counters / first-frame flags to start from (IVs are drawn at execution)
 	CtrAB, CtrBA uint32 `json:",omitempty"`
 	FinAB, FinBA bool   `json:",omitempty"` // first protected frame already exchanged in that direction
+	// relay: bit 0 SetConnection on both ends between the two legs, bit 1 FinalizeDigests on both
+	// ends before the keys, bit 2 SetConnection on both ends before the keys
+	RelayOpts int `json:",omitempty"`
 	// ReadMax >= 1: both connections deliver at most that many bytes per Read call (short reads);
 	// invisible to the model, which sees a byte stream.
 	ReadMax int `json:",omitempty"`
@@ -329,6 +332,10 @@ func Exec(c *Case) (obs *Obs, term string) {
 		if err := leg(w.a, w.b, w.ab, c.Setup.PreAB, c.Setup.SeenAB, w.dirAB, w.dirBA); err != nil {
 			obs.SetupErr = err
 		}
+		if c.Setup.RelayOpts&1 != 0 { // SetConnection on both ends in the middle of the negotiation
+			w.a.SetConnection(w.ca)
+			w.b.SetConnection(w.cb)
+		}
 		if err := leg(w.b, w.a, w.ba, c.Setup.PreBA, c.Setup.SeenBA, w.dirBA, w.dirAB); err != nil {
 			obs.SetupErr = err
 		}
@@ -342,6 +349,14 @@ func Exec(c *Case) (obs *Obs, term string) {
 			d := sf.D.Bytes()
 			w.dirBA.RecvClear = append(w.dirBA.RecvClear, RawFrame{Flag: byte(sf.Flag), Len: uint32(len(d)), Body: d}.Bytes()...)
 			w.dirBA.RecvAny = true
+		}
+		if c.Setup.RelayOpts&4 != 0 {
+			w.a.SetConnection(w.ca)
+			w.b.SetConnection(w.cb)
+		}
+		if c.Setup.RelayOpts&2 != 0 { // the plaintext-session path: digests frozen before a key arrives after all
+			w.a.FinalizeDigests()
+			w.b.FinalizeDigests()
 		}
 		if obs.SetupErr == nil {
 			if err := w.a.SetSymmetricKey(c.Setup.Key); err != nil {
@@ -371,6 +386,10 @@ func Exec(c *Case) (obs *Obs, term string) {
 			}
 			setupTerm = fmt.Sprintf("(SRelay %s %s %s %s %s %s %s)", core.Hex(c.Setup.Key), core.Hex(obs.IVA), core.Hex(obs.IVB),
 				tl(c.Setup.PreAB), sl(c.Setup.SeenAB), tl(c.Setup.PreBA), sl(c.Setup.SeenBA))
+			if c.Setup.RelayOpts != 0 {
+				setupTerm = fmt.Sprintf("(SRelayX %d %s %s %s %s %s %s %s)", c.Setup.RelayOpts, core.Hex(c.Setup.Key), core.Hex(obs.IVA), core.Hex(obs.IVB),
+					tl(c.Setup.PreAB), sl(c.Setup.SeenAB), tl(c.Setup.PreBA), sl(c.Setup.SeenBA))
+			}
 		}
 	case "blobs":
 		ivAB, ivBA := rnd(16), rnd(16)
